@@ -396,3 +396,77 @@ Proof.
 Qed.
 
 End Proofs.
+
+(* ---------------------------------------------------------------- the depth bound is tight *)
+Lemma nth_error_repeat' {A} (x : A) : forall n i, i < n -> nth_error (repeat x n) i = Some x.
+Proof.
+  induction n as [|n IH]; intros i Hi; [lia|]. destruct i as [|i]; [reflexivity|]. cbn [repeat nth_error]. apply IH. lia.
+Qed.
+
+Lemma next_at toks i t :
+  nth_error toks i = Some t -> is_trivia t = false -> next toks i = mk_res (POk (Some t, S i)) 0.
+Proof.
+  intros E Ht. unfold next. f_equal. cbn [next_loop].
+  assert (Hlt : i < length toks) by (apply nth_error_Some; rewrite E; discriminate).
+  destruct (Nat.leb_spec (length toks) i) as [Hge|_]; [lia|]. rewrite E, Ht. reflexivity.
+Qed.
+
+Lemma next_end toks i : length toks <= i -> next toks i = mk_res (POk (None, i)) 0.
+Proof.
+  intros Hge. unfold next. f_equal. cbn [next_loop].
+  destruct (Nat.leb_spec (length toks) i) as [_|Hlt]; [reflexivity | lia].
+Qed.
+
+Lemma res_eta {A} (x : res A) : mk_res (out x) (Nat.max 0 (dep x)) = x.
+Proof. destruct x as [o d]. reflexivity. Qed.
+
+Lemma prefix_at_end toks call i : length toks <= i -> parse_prefix toks call i = mk_res PErr 0.
+Proof.
+  intros Hge. unfold parse_prefix, bind, maybe_parse, datatype_parse, next_tok, bind.
+  rewrite (next_end toks i Hge). cbn [out dep fail ret]. rewrite (next_end toks i Hge). reflexivity.
+Qed.
+
+Lemma prefix_minus toks call i :
+  nth_error toks i = Some (TOp OMinus) ->
+  parse_prefix toks call i = unary call "Minus"%tag PREC_UNARY_MINUS (S i).
+Proof.
+  intros E. unfold parse_prefix, bind, maybe_parse, datatype_parse, next_tok, bind.
+  rewrite (next_at toks i _ E eq_refl). cbn [out dep fail ret tok_keyword].
+  rewrite (next_at toks i _ E eq_refl). cbn [out dep fail ret]. apply res_eta.
+Qed.
+
+Lemma minus_chain n : forall k f p i, i + k = n -> k + 1 <= f ->
+  go (repeat (TOp OMinus) n) f (RSubexpr p) i = mk_res PErr (k + 1).
+Proof.
+  induction k as [|k IH]; intros f p i Hik Hf; (destruct f as [|f]; [lia|]); cbn [go handler]; unfold frame, bind.
+  - rewrite prefix_at_end by (rewrite repeat_length; lia). reflexivity.
+  - rewrite prefix_minus by (apply nth_error_repeat'; lia). unfold unary, bind.
+    rewrite (IH f PREC_UNARY_MINUS (S i)) by lia. cbn [out dep]. f_equal; lia.
+Qed.
+
+(* for every n there is a text of n tokens ("- - - ... -") on which the parser nests n + 1 frames *)
+Theorem parser_depth_tight n :
+  length (repeat (TOp OMinus) n) = n /\
+  out (parse_expr (repeat (TOp OMinus) n)) = PErr /\ dep (parse_expr (repeat (TOp OMinus) n)) = n + 1.
+Proof.
+  split; [apply repeat_length|]. unfold parse_expr.
+  rewrite (minus_chain n n _ 0%N 0) by (rewrite ?repeat_length; lia). split; reflexivity.
+Qed.
+
+(* the family of findings/C15.json parser-stack-overflow: "((( ... 1 ... )))" succeeds and nests n + 1 frames *)
+Lemma parens_300 :
+  length (nested_parens 300) = 601 /\ dep (parse_expr (nested_parens 300)) = 301 /\
+  exists e, out (parse_expr (nested_parens 300)) = POk (e, 601).
+Proof. split; [reflexivity|]. split; [vm_compute; reflexivity | eexists; vm_compute; reflexivity]. Qed.
+
+Lemma precedences_present :
+  Forall (fun p : option N => p <> None)
+    [prec_or; prec_and; prec_not; prec_is; prec_comparison; prec_containment; prec_everything_else;
+     prec_add_sub; prec_mul_div_mod; prec_exponentiation; prec_unary_minus; prec_array_elem; prec_cast].
+Proof. repeat constructor; discriminate. Qed.
+
+Lemma example_1_plus_2 :
+  parse_expr [TNumber [49%N]; TWhitespace; TOp OPlus; TNumber [50%N]] =
+  mk_res (POk (SN "BinaryExpr"%tag [SN "Literal"%tag [SN "Number"%tag [SS [49%N]]]; SN "Plus"%tag [];
+                                    SN "Literal"%tag [SN "Number"%tag [SS [50%N]]]], 4)) 2.
+Proof. vm_compute. reflexivity. Qed.
